@@ -289,23 +289,23 @@ def containsIndex (h : IFib K V) (i : Int) : Bool :=
     | _ => false
   else false
 
+/-- `h.insert(h.ext, n); h.ext = h.pickExt(h.ext, n)`: the root list with the new node `nd` -/
+def insertRoots (cmp : K → K → Int) (h : IFib K V) (key : K) (nd : FN) : Outcome (List FN) :=
+  match h.roots with
+  | [] => .ok [nd]
+  | e :: _ =>
+    match h.keyOf e.id with
+    | .ok ke => if cmp ke key ≤ 0 then .ok (h.roots ++ [nd]) else .ok (nd :: h.roots)
+    | .panic => .panic
+    | .diverge => .diverge
+
 def insert (cmp : K → K → Int) (h : IFib K V) (i : Int) (key : K) (val : V) : Outcome (IFib K V × Bool) :=
   if i < 0 ∨ i ≥ (h.nodes.size : Int) ∨ h.containsIndex i = true then .ok (h, false)
   else
     let i := i.toNat
     let id := h.cells.size
     let cells := h.cells.push { index := i, key := key, val := val }
-    let nd : FN := ⟨id, 0, false, .nil⟩
-    -- h.insert(h.ext, n); h.ext = h.pickExt(h.ext, n)
-    let roots : Outcome (List FN) :=
-      match h.roots with
-      | [] => .ok [nd]
-      | e :: _ =>
-        match h.keyOf e.id with
-        | .ok ke => if cmp ke key ≤ 0 then .ok (h.roots ++ [nd]) else .ok (nd :: h.roots)
-        | .panic => .panic
-        | .diverge => .diverge
-    match roots with
+    match insertRoots cmp h key ⟨id, 0, false, .nil⟩ with
     | .ok roots =>
       if i < h.nodes.size then
         .ok ({ n := h.n + 1, roots := roots, nodes := h.nodes.setIfInBounds i (some id), cells := cells }, true)
@@ -366,6 +366,46 @@ def deleteIndex (cmp : K → K → Int) (h : IFib K V) (i : Int) : Outcome (IFib
       | .diverge => .diverge
     | _ => .panic
 
+/-- `n.parent != nil && cmpKey(n.parent.key, n.key) > 0` for the parent `par` of `n` (`none` = a root) -/
+def needsCut (cmp : K → K → Int) (h1 : IFib K V) (par : Option Nat) (key : K) : Outcome Bool :=
+  match par with
+  | none => .ok false
+  | some p =>
+    match h1.keyOf p with
+    | .ok kp => .ok (decide (0 < cmp kp key))
+    | .panic => .panic
+    | .diverge => .diverge
+
+/-- `h.ext = h.pickExt(h.ext, n)` at the end of a key decrease -/
+def finishDecrease (cmp : K → K → Int) (h2 : IFib K V) (id : Nat) (key : K) : Outcome (IFib K V × Bool) :=
+  match h2.roots with
+  | [] => .panic
+  | e :: _ =>
+    match h2.keyOf e.id with
+    | .ok ke =>
+      if cmp ke key ≤ 0 then .ok (h2, true)
+      else
+        match rotateTo id h2.roots with
+        | some roots => .ok ({ h2 with roots := roots }, true)
+        | none => .panic
+    | .panic => .panic
+    | .diverge => .diverge
+
+/-- the decrease branch of `ChangeKey`, after `n.key = key` has been executed (`h1` has the new key):
+`if n.parent != nil && cmpKey(n.parent.key, n.key) > 0 { cutAndCascade(n) }; h.ext = pickExt(h.ext, n)` -/
+def decreaseKey (cmp : K → K → Int) (h1 : IFib K V) (id : Nat) (key : K) : Outcome (IFib K V × Bool) :=
+  match parentOf id h1.roots with
+  | none => .panic
+  | some par =>
+    match needsCut cmp h1 par key with
+    | .ok b =>
+      match (if b then cutAndCascade h1 id else .ok h1) with
+      | .ok h2 => finishDecrease cmp h2 id key
+      | .panic => .panic
+      | .diverge => .diverge
+    | .panic => .panic
+    | .diverge => .diverge
+
 def changeKey (cmp : K → K → Int) (h : IFib K V) (i : Int) (key : K) : Outcome (IFib K V × Bool) :=
   if h.containsIndex i = false then .ok (h, false)
   else
@@ -377,39 +417,7 @@ def changeKey (cmp : K → K → Int) (h : IFib K V) (i : Int) (key : K) : Outco
         let cm := cmp key c.key
         if cm < 0 then
           -- decrease key
-          let h1 : IFib K V := { h with cells := h.cells.setIfInBounds id { c with key := key } }
-          match parentOf id h1.roots with
-          | none => .panic
-          | some par =>
-            let cutIt : Outcome Bool :=
-              match par with
-              | none => .ok false
-              | some p =>
-                match h1.keyOf p with
-                | .ok kp => .ok (decide (0 < cmp kp key))
-                | .panic => .panic
-                | .diverge => .diverge
-            match cutIt with
-            | .ok b =>
-              match (if b then cutAndCascade h1 id else .ok h1) with
-              | .ok h2 =>
-                -- h.ext = h.pickExt(h.ext, n)
-                match h2.roots with
-                | [] => .panic
-                | e :: _ =>
-                  match h2.keyOf e.id with
-                  | .ok ke =>
-                    if cmp ke key ≤ 0 then .ok (h2, true)
-                    else
-                      match rotateTo id h2.roots with
-                      | some roots => .ok ({ h2 with roots := roots }, true)
-                      | none => .panic
-                  | .panic => .panic
-                  | .diverge => .diverge
-              | .panic => .panic
-              | .diverge => .diverge
-            | .panic => .panic
-            | .diverge => .diverge
+          decreaseKey cmp { h with cells := h.cells.setIfInBounds id { c with key := key } } id key
         else if 0 < cm then
           -- increase key: h.DeleteIndex(i); h.Insert(i, key, n.val)
           match deleteNode cmp h id with
